@@ -365,6 +365,9 @@ thread_local! { static OBSERVE_READERS: std::cell::Cell<bool> = const { std::cel
 // mode `resourcerdfx`: a subscriber of the value (outside the owner scope) that DISPOSES the scope owning the resource as soon
 // as a value is delivered, i.e. inside the executor step in which the fetch completes
 thread_local! { static DISPOSE_ON_VALUE: std::cell::Cell<bool> = const { std::cell::Cell::new(false) }; }
+// mode `resourcerdw`: the observer of every reader boundary WRITES the dependency (to this value, once it differs) when its
+// boundary resolves ("panel shown, move on to the next item"): the write must find the delivered value published
+thread_local! { static WRITE_ON_RESOLVE: std::cell::Cell<Option<u32>> = const { std::cell::Cell::new(None) }; }
 
 /// `fl`: a subscriber of `is_loading` that moves an odd dependency on to the next value whenever a load is announced
 fn run_resource_opt(dep0: u32, fb: Option<u32>, fl: bool, events: &[String]) -> (String, Option<String>) {
@@ -422,8 +425,13 @@ fn run_resource_opt(dep0: u32, fb: Option<u32>, fl: bool, events: &[String]) -> 
         // mode `resourcerd`: the loading state of every reader boundary is observed and judged; per reader (oldest
         // first): the boundary's is_loading selector, and what the statement expects: (guard held, recorded for the next fetch)
         let rd = OBSERVE_READERS.with(|o| o.get());
+        let wr = WRITE_ON_RESOLVE.with(|o| o.get());
         let reader_sel: Rc<RefCell<Vec<ReadSignal<bool>>>> = Default::default();
         let mut reader_exp: Vec<(bool, bool)> = vec![];
+        // mode `resourcerdt`: per reader (aligned with `reader_exp`), the number of its OWN pending task (event `v`: a boundary that
+        // reads the resource once, non-reactively, and also has a suspense task of its own; event `t<i>` completes that task)
+        let mut reader_task: Vec<Option<usize>> = vec![];
+        let vtasks: Rc<RefCell<Vec<Option<oneshot::Sender<()>>>>> = Default::default();
         let mut alive = true;
         // harness bookkeeping for the oracle
         let (mut started, mut latest_dep, mut completed, mut value): (u32, u32, bool, Option<(u32, u32)>) = (1, dep0, false, None);
@@ -455,19 +463,35 @@ fn run_resource_opt(dep0: u32, fb: Option<u32>, fl: bool, events: &[String]) -> 
                         let sel = me.is_loading();
                         reader_sel.borrow_mut().push(sel);
                         // an observer of the boundary's loading state that looks at the resource whenever the boundary loads
-                        create_effect(move || { if sel.get() { let _ = res.get_clone(); } });
+                        let was = Rc::new(std::cell::Cell::new(false));
+                        create_effect(move || {
+                            if sel.get() { was.set(true); let _ = res.get_clone(); }
+                            else if was.replace(false) { if let Some(c) = wr { if dep.get_untracked() != c { dep.set(c); } } }
+                        });
                     }
                     let _ = res.get_clone(); }); })); } }
+                else if e == "v" { if alive { readers.borrow_mut().push(create_child_scope(|| { let _ = create_suspense_scope(|| {
+                    let me = try_use_context::<SuspenseScope>().expect("suspense scope in context");
+                    reader_sel.borrow_mut().push(me.is_loading());
+                    let (tx, rx) = oneshot::channel::<()>();
+                    vtasks.borrow_mut().push(Some(tx));
+                    create_suspense_task(async move { let _ = rx.await; });
+                    // one read, outside every computation: nothing re-reads when a fetch starts
+                    let _ = res.get_clone_untracked(); }); })); } }
+                else if let Some(i) = e.strip_prefix('t') { let i: usize = i.parse().unwrap(); if let Some(tx) = vtasks.borrow_mut().get_mut(i).and_then(|t| t.take()) { let _ = tx.send(()); } }
                 else if e == "y" { if !readers.borrow().is_empty() { let h = readers.borrow_mut().remove(0); if rd && !reader_sel.borrow().is_empty() { reader_sel.borrow_mut().remove(0); } h.dispose(); } }
                 else if e == "x" { scope.dispose(); }
                 else if let Some(v) = e.strip_prefix('w') { if alive { dep.set(v.parse().unwrap()); } }
                 else if let Some(k) = e.strip_prefix('f') { let k: usize = k.parse().unwrap(); if k >= 1 { if let Some(tx) = txs.borrow_mut().get_mut(k - 1).and_then(|t| t.take()) { let _ = tx.send(()); } } }
             }));
             // what the statement expects of the reader boundaries
+            let released_any = rd && reader_exp.iter().any(|r| r.0);
             if rd {
                 let latest_outstanding = !completed;
-                if e == "u" { if alive { reader_exp.push(if latest_outstanding { (true, false) } else { (false, true) }); } }
-                else if e == "y" { if !reader_exp.is_empty() { reader_exp.remove(0); } }
+                if e == "u" { if alive { reader_exp.push(if latest_outstanding { (true, false) } else { (false, true) }); reader_task.push(None); } }
+                else if e == "v" { if alive { reader_exp.push(if latest_outstanding { (true, false) } else { (false, true) }); reader_task.push(Some(vtasks.borrow().len() - 1)); } }
+                else if e.starts_with('t') { let i: usize = e[1..].parse().unwrap(); for t in reader_task.iter_mut() { if *t == Some(i) { *t = None; } } }
+                else if e == "y" { if !reader_exp.is_empty() { reader_exp.remove(0); reader_task.remove(0); } }
                 else if e == "x" { for r in reader_exp.iter_mut() { *r = (false, false); } }
                 else if alive && e.starts_with('w') { for r in reader_exp.iter_mut() { if r.1 { *r = (true, false); } } }
                 else if alive && e.starts_with('f') {
@@ -490,6 +514,10 @@ fn run_resource_opt(dep0: u32, fb: Option<u32>, fl: bool, events: &[String]) -> 
                     if k == started && !completed {
                         completed = true;
                         value = Some((k, latest_dep));
+                        // the observers of the boundaries that this delivery releases write the dependency: a new fetch is
+                        // outstanding (the boundaries released just now are not on the list for it)
+                        if let Some(c) = wr { if released_any && alive && cur_dep != c { cur_dep = c; started += 1; latest_dep = c; completed = false;
+                            for r in reader_exp.iter_mut() { if r.1 { *r = (true, false); } } } }
                         if fx {
                             // the subscriber disposes the owner inside the delivery
                             alive = false;
@@ -519,7 +547,7 @@ fn run_resource_opt(dep0: u32, fb: Option<u32>, fl: bool, events: &[String]) -> 
             let o = show(alive);
             if rd && verdict.is_none() {
                 let have = o.rsplit_once(" B=").map(|x| x.1.to_string()).unwrap_or_default();
-                let want = format!("[{}]", reader_exp.iter().map(|r| (r.0 as u8).to_string()).collect::<Vec<_>>().join(","));
+                let want = format!("[{}]", reader_exp.iter().zip(reader_task.iter()).map(|(r, t)| ((r.0 || t.is_some()) as u8).to_string()).collect::<Vec<_>>().join(","));
                 if have != want {
                     verdict = Some(format!("[suspense-loading] after event {e}: the boundaries that read the resource report loading = {have}, expected {want} (a boundary that read it while a fetch was outstanding stays loading until the LATEST fetch delivers; one that read it in between is suspended by the next fetch)"));
                 }
@@ -552,12 +580,29 @@ pub fn exec(line: &str) -> (String, Option<String>, bool) {
         DISPOSE_ON_VALUE.with(|o| o.set(false));
         OBSERVE_READERS.with(|o| o.set(false));
         (o, v, evs.len() >= 2)
+    } else if let Some(r) = rest.strip_prefix("resourcerdw ") {
+        let mut it = r.splitn(3, ' ');
+        let (d, c, evs) = (it.next().unwrap(), it.next().unwrap(), it.next().unwrap());
+        let evs: Vec<String> = if evs == "-" { vec![] } else { evs.split(',').map(|s| s.to_string()).collect() };
+        OBSERVE_READERS.with(|o| o.set(true));
+        WRITE_ON_RESOLVE.with(|o| o.set(Some(c.parse().unwrap())));
+        let (o, v) = run_resource(d.parse().unwrap(), None, &evs);
+        WRITE_ON_RESOLVE.with(|o| o.set(None));
+        OBSERVE_READERS.with(|o| o.set(false));
+        (o, v, evs.len() >= 2)
     } else if let Some(r) = rest.strip_prefix("resourcerdfb ") {
         let mut it = r.splitn(3, ' ');
         let (d, c, evs) = (it.next().unwrap(), it.next().unwrap(), it.next().unwrap());
         let evs: Vec<String> = if evs == "-" { vec![] } else { evs.split(',').map(|s| s.to_string()).collect() };
         OBSERVE_READERS.with(|o| o.set(true));
         let (o, v) = run_resource(d.parse().unwrap(), Some(c.parse().unwrap()), &evs);
+        OBSERVE_READERS.with(|o| o.set(false));
+        (o, v, evs.len() >= 2)
+    } else if let Some(r) = rest.strip_prefix("resourcerdt ") {
+        let (d, evs) = r.split_once(' ').unwrap();
+        let evs: Vec<String> = if evs == "-" { vec![] } else { evs.split(',').map(|s| s.to_string()).collect() };
+        OBSERVE_READERS.with(|o| o.set(true));
+        let (o, v) = run_resource(d.parse().unwrap(), None, &evs);
         OBSERVE_READERS.with(|o| o.set(false));
         (o, v, evs.len() >= 2)
     } else if let Some(r) = rest.strip_prefix("resourcerd ") {
@@ -974,6 +1019,26 @@ pub fn generate(args: &Args) -> Vec<String> {
             let evs: Vec<String> = s.iter().map(|e| if *e == "w" { wv += 1; format!("w{wv}") } else { e.to_string() }).collect();
             l.push(format!("async resourcerdfb 7 1 {}", evs.join(",")));
             l.push(format!("async resourcerdfx 7 {}", evs.join(",")));
+            l.push(format!("async resourcerdw 7 1 {}", evs.join(",")));
+        }
+        // boundaries that read the resource ONCE (nothing re-reads when a fetch starts) and have a task of their own: loading
+        // while the task is pending OR the resource holds a guard for them; every order of a refetch, its completion and the task
+        for pre in [vec!["f1", "v"], vec!["v", "f1"], vec!["f1", "v", "v"], vec!["f1", "u", "v"], vec!["v"]] {
+            let nv = pre.iter().filter(|e| **e == "v").count();
+            let mut tail: Vec<String> = vec!["w11".into(), "f2".into()];
+            for i in 0..nv { tail.push(format!("t{i}")); }
+            let mut perms = permutations(&tail);
+            perms.sort(); perms.dedup();
+            for p in perms {
+                // (a fetch completes after it was started)
+                let (iw, if2) = (p.iter().position(|e| e == "w11").unwrap(), p.iter().position(|e| e == "f2").unwrap());
+                if if2 < iw { continue; }
+                let mut evs: Vec<String> = pre.iter().map(|e| e.to_string()).collect();
+                evs.extend(p.iter().cloned());
+                l.push(format!("async resourcerdt 7 {}", evs.join(",")));
+                let mut e2 = evs.clone(); e2.push("w12".into()); e2.push("y".into()); e2.push("f3".into());
+                l.push(format!("async resourcerdt 7 {}", e2.join(",")));
+            }
         }
         for _ in 0..(if thorough { 20_000 } else { 500 }) {
             let n = 5 + rng.below(8);
